@@ -306,9 +306,18 @@ class ExprGen:
             body = r.choice(["integer", "real", "real{+(KIND = +}{-(-}8)", "character(len = 3)"]) + " :: " + body
         return ("[%s]" % body) if r.random() < 0.6 else ("(/ %s /)" % body)
 
+    def substring(self, d):
+        r = self.r
+        base = self.env.scalar() if r.random() < 0.5 else "%s(%s)" % (self.env.array(), self.iexpr(0))
+        lo = self.iexpr(0) if r.random() < 0.7 else ""
+        hi = self.iexpr(0) if r.random() < 0.7 else ""
+        return "%s(%s:%s)" % (base, lo, hi)
+
     def leaf(self, d):
         r = self.r
         c = r.random()
+        if c < 0.04:
+            return ("leaf", self.substring(d))
         if c < 0.30:
             return ("leaf", self.env.scalar())
         if c < 0.52:
